@@ -297,3 +297,12 @@ package vm
 //@ pure
 //@ may-panic
 //@ ensures[ceil] x >= 0 ==> result * ExecFeeFactorMultiplier >= x && (result - 1) * ExecFeeFactorMultiplier < x
+
+// (C12) the gas limit is kept in picoGAS: a positive limit in datoshi is that many times the
+// multiplier (the product has to fit the 64-bit field; a negative limit means no limit)
+//@ prop C12
+//@ func (*VM).SetGasLimit
+//@ requires v != nil
+//@ modifies v.gasLimit
+//@ ensures[exact] datoshi > 0 ==> v.gasLimit == datoshi * ExecFeeFactorMultiplier
+//@ ensures[unlimited] datoshi <= 0 ==> v.gasLimit == datoshi
